@@ -13,7 +13,7 @@ import (
 
 func init() {
 	register("C03", runC03, propMeta{
-		Explanation: "Decides effect confinement and the conversion tables behind faithful access to injected data, for all programs: (I1) in DataContext every read, write or call through the local store is reachable only over the miss edge of a lookup of the same key in the injected table, so an injected name always wins; (I2) reflect mutators (Set, SetInt, SetUint, SetFloat, SetString, SetBool, SetComplex, SetMapIndex) occur only in core.SetAttributeValue, core.SetSingleValue and DataContext.SetMapVarValue, which are reachable only from Assignment.Evaluate and the key binding of ForRangeStmt; reflect Call occurs only in ExecFunc and InvokeFunction; the injected table is written only by Add/PluginLoader/Del — hence reads, comparisons and calls leave injected data untouched; (I3) conversion tables, row by row: ParamsTypeChange converts parameter i against In(i) of the same index, for each of the 12 numeric kinds to exactly that kind, reading the argument with the accessor of its own class tag (36 rows); getNumType maps prefix to tag; GetWantedValue converts to the target kind with the accessor of the target's class (12 rows); SetAttributeValue and SetSingleValue use the setter of the target's kind group, read the source with the accessor of the source's class, and store a signed or float source into an unsigned target only under a `>= 0` test; (I4) Args.Evaluate stores the i-th evaluated argument at index i and GetRawTypeValue returns element 0; (I5) every MapIndex result returned by MapVar.Evaluate is guarded by IsValid() with reflect.Zero of the element type on the other edge. Not decided: reflect's own semantics, whether a particular value is representable, user functions.",
+		Explanation: "Decides effect confinement and the conversion tables behind faithful access to injected data, for all programs: (I1) in DataContext every read, write or call through the local store is reachable only over the miss edge of a lookup of the same key in the injected table, so an injected name always wins; (I2) reflect mutators (Set, SetInt, SetUint, SetFloat, SetString, SetBool, SetComplex, SetMapIndex) occur only in core.SetAttributeValue, core.SetSingleValue and DataContext.SetMapVarValue, which are reachable only from Assignment.Evaluate and the key binding of ForRangeStmt; reflect Call occurs only in ExecFunc and InvokeFunction; the injected table is written only by Add/PluginLoader/Del — hence reads, comparisons and calls leave injected data untouched; (I3) conversion tables, row by row: ParamsTypeChange converts parameter i against In(i) of the same index, for each of the 12 numeric kinds to exactly that kind, reading the argument with the accessor of its own class tag (36 rows); getNumType maps prefix to tag; GetWantedValue converts to the target kind with the accessor of the target's class (12 rows); SetAttributeValue and SetSingleValue use the setter of the target's kind group, read the source with the accessor of the source's class, and store a signed or float source into an unsigned target only under a `>= 0` test; (I4) Args.Evaluate stores the i-th evaluated argument at index i and GetRawTypeValue returns element 0; (I5) every MapIndex result returned by MapVar.Evaluate is guarded by IsValid() with reflect.Zero of the element type on the other edge. ParamsTypeChange converts every declared parameter: its loop counts from 0 to NumIn() of the same function type. (I8) the field read by GetStructAttributeValue and set by SetAttributeValue is FieldByName(the given name) of the given object, or FieldByIndex with a path found for that name on the object's own reflect.Type (tables keyed by the Type accepted, by a printed name not). Not decided: reflect's own semantics, whether a particular value is representable, user functions.",
 		Assumptions: []string{"reflect accessors/setters behave as documented"},
 		Trusted:     commonTrusted,
 	})
@@ -181,22 +181,7 @@ func runC03(c *Ctx) {
 		})
 	}
 	c.Min("I2-effects-confined", 15)
-	callers := func(pkg, recv, name string) []string {
-		var out []string
-		set := map[string]bool{}
-		for _, f := range c.AllFns {
-			eachInstr(f, func(in ssa.Instruction) {
-				if cc := callCommon(in); cc != nil && fnIs(cc.StaticCallee(), pkg, recv, name) {
-					set[fnName(rootOf(f))] = true
-				}
-			})
-		}
-		for k := range set {
-			out = append(out, k)
-		}
-		sort.Strings(out)
-		return out
-	}
+	callers := c.callersOf
 	wantCallers := map[[3]string][]string{
 		{pCore, "", "SetAttributeValue"}:            {"DataContext.SetValue"},
 		{pCore, "", "SetSingleValue"}:               {"DataContext.SetValue"},
@@ -377,6 +362,7 @@ func runC03(c *Ctx) {
 	// ---- I6: the element addressed is the one named by the key, the value stored is the one assigned
 	c.ruleI6("I6-key-and-value-reach-access")
 	c.ruleI7("I7-dotted-name-plumbing")
+	c.ruleI8("I8-field-by-name")
 	// ---- I5
 	if f := c.MustFn("I5-missing-key-zero", "internal/base", "MapVar", "Evaluate"); f != nil {
 		x := c.Index(f)
@@ -607,6 +593,26 @@ func (c *Ctx) ruleI3(kinds map[int64]string) {
 			c.Check("I3-ParamsTypeChange", key, r.ok, r.pos, "%s", orStr(r.why, "converted to the parameter's kind with the accessor of the argument's class, for every argument kind of the class"))
 		}
 		c.Check("I3-ParamsTypeChange", "rows", len(rows) == 36 && len(inCalls) > 0, f.Pos(), "%d of the 36 (parameter kind x source class) rows found", len(rows))
+		// every declared parameter is converted: the loop counts from 0 up to NumIn() of the function's type
+		okAll, whyAll := len(inCalls) > 0, "no In(i) call found"
+		for _, ic := range inCalls {
+			okAll, whyAll = false, "the index of In(i) is not the counter of a loop that counts from 0 to NumIn()"
+			cell := x.directCell(x.lastLoad(ic.Call.Args[0]))
+			if cell == nil {
+				break
+			}
+			cl := x.countedLoop(cell)
+			if cl == nil || cl.start != 0 || cl.boundAdd != 0 || !cl.loop.Blocks[ic.Block()] {
+				break
+			}
+			bc, isCall := x.Origin(cl.bound).(*ssa.Call)
+			if !isCall || !bc.Call.IsInvoke() || bc.Call.Method.Name() != "NumIn" || !x.sameValue(bc.Call.Value, ic.Call.Value) {
+				whyAll = "the loop over the parameters is bounded by " + x.Describe(cl.bound) + ", not by NumIn() of the same function type"
+				break
+			}
+			okAll, whyAll = true, ""
+		}
+		c.Check("I3-ParamsTypeChange", "every-declared-parameter", okAll, f.Pos(), "%s", orStr(whyAll, "parameters 0 .. NumIn()-1 are all converted"))
 	}
 	// GetWantedValue
 	if f := c.MustFn("I3-GetWantedValue", "internal/core", "", "GetWantedValue"); f != nil {
@@ -1063,4 +1069,331 @@ func (c *Ctx) ruleI7(rule string) {
 		c.Check(rule, "DataContext."+fnm+"#has-steps", perFn[fnm] > 0, token.NoPos, "%s resolves its dotted name through %d field / method step(s)", fnm, perFn[fnm])
 	}
 	c.Min(rule, 8)
+}
+
+// ruleI8: the field read or written is the one of the given name on the given object. In
+// GetStructAttributeValue every value returned without an error, and in SetAttributeValue every value a
+// reflect setter is applied to, is FieldByName(the name given) of the object given (or of what it points
+// to) -- or FieldByIndex with an index path that was found for that name on that object's own reflect.Type:
+// directly by Type().FieldByName(name), or taken from a table whose keys contain the reflect.Type itself.
+// A position remembered under anything else (a printed type name, the field name alone) can belong to
+// another type and another field.
+func (c *Ctx) ruleI8(rule string) {
+	setters := map[string]bool{"Set": true, "SetInt": true, "SetUint": true, "SetFloat": true, "SetString": true, "SetBool": true, "SetComplex": true}
+	for _, fname := range []string{"GetStructAttributeValue", "SetAttributeValue"} {
+		f := c.MustFn(rule, "internal/core", "", fname)
+		if f == nil || len(f.Params) < 2 {
+			continue
+		}
+		x := c.Index(f)
+		obj, name := ssa.Value(f.Params[0]), ssa.Value(f.Params[1])
+		var rootOK func(v ssa.Value, at ssa.Instruction, d int) bool
+		rootOK = func(v ssa.Value, at ssa.Instruction, d int) bool {
+			if d > 4 {
+				return false
+			}
+			pvs := x.ValuesAt(v, at)
+			if len(pvs) == 0 {
+				return false
+			}
+			for _, pv := range pvs {
+				if pv.V == nil || pv.Outside {
+					return false
+				}
+				o := x.Origin(pv.V)
+				if o == obj {
+					continue
+				}
+				call, isCall := o.(*ssa.Call)
+				if !isCall {
+					return false
+				}
+				if nm, cc := reflectMethod(call); cc != nil && nm == "Elem" {
+					if !rootOK(cc.Args[0], call, d+1) {
+						return false
+					}
+					continue
+				}
+				if fnIs(call.Call.StaticCallee(), "reflect", "", "Indirect") {
+					if !rootOK(call.Call.Args[0], call, d+1) {
+						return false
+					}
+					continue
+				}
+				return false
+			}
+			return true
+		}
+		isName := func(v ssa.Value, at ssa.Instruction) bool {
+			pvs := x.ValuesAt(v, at)
+			if len(pvs) == 0 {
+				return false
+			}
+			for _, pv := range pvs {
+				if pv.V == nil || x.Origin(pv.V) != name {
+					return false
+				}
+			}
+			return true
+		}
+		isReflectType := func(t types.Type) bool {
+			n, ok := t.(*types.Named)
+			return ok && n.Obj().Pkg() != nil && n.Obj().Pkg().Path() == "reflect" && n.Obj().Name() == "Type"
+		}
+		holdsType := func(t types.Type) bool {
+			if p, isP := t.(*types.Pointer); isP {
+				t = p.Elem()
+			}
+			if isReflectType(t) {
+				return true
+			}
+			if st, ok := t.Underlying().(*types.Struct); ok {
+				for i := 0; i < st.NumFields(); i++ {
+					if isReflectType(st.Field(i).Type()) {
+						return true
+					}
+				}
+			}
+			return false
+		}
+		// typeOfRoot: v is <the object>.Type() (or .Elem() of it)
+		var typeOfRoot func(v ssa.Value, at ssa.Instruction, d int) bool
+		typeOfRoot = func(v ssa.Value, at ssa.Instruction, d int) bool {
+			if d > 4 {
+				return false
+			}
+			pvs := x.ValuesAt(v, at)
+			if len(pvs) == 0 {
+				return false
+			}
+			for _, pv := range pvs {
+				if pv.V == nil {
+					return false
+				}
+				call, isCall := x.Origin(pv.V).(*ssa.Call)
+				if !isCall {
+					return false
+				}
+				if nm, cc := reflectMethod(call); cc != nil && nm == "Type" && rootOK(cc.Args[0], call, 0) {
+					continue
+				}
+				if call.Call.IsInvoke() && call.Call.Method.Name() == "Elem" && isReflectType(call.Call.Value.Type()) && typeOfRoot(call.Call.Value, call, d+1) {
+					continue
+				}
+				return false
+			}
+			return true
+		}
+		why := ""
+		// idxOK: where an index path comes from; sawType: a reflect.Type took part in finding it
+		var idxOK func(v ssa.Value, at ssa.Instruction, d int, sawType *bool) bool
+		keyOK := func(k ssa.Value, at ssa.Instruction, sawType *bool) bool {
+			o := x.Unwrap(k)
+			switch {
+			case holdsType(o.Type()):
+				*sawType = true
+				return true
+			case isName(k, at) || o == name:
+				return true
+			}
+			why = "an index path looked up under a key that is neither the reflect.Type nor the given name (" + x.Describe(o) + ": " + o.Type().String() + ")"
+			return false
+		}
+		idxOK = func(v ssa.Value, at ssa.Instruction, d int, sawType *bool) bool {
+			if d > 6 {
+				return false
+			}
+			// a field of a local struct variable that is only ever assigned as a whole (sf.Index)
+			if ld, isLd := v.(*ssa.UnOp); isLd && ld.Op == token.MUL {
+				if fa, isFa := ld.X.(*ssa.FieldAddr); isFa {
+					if al, isAl := x.ResolveAddr(fa.X).(*ssa.Alloc); isAl && len(x.stores[al]) > 0 && len(x.stores[fa]) == 0 {
+						for _, st := range x.stores[al] {
+							if !idxOK(st.Val, st, d+1, sawType) {
+								return false
+							}
+						}
+						return true
+					}
+				}
+			}
+			pvs := x.ValuesAt(v, at)
+			if len(pvs) == 0 {
+				return false
+			}
+			for _, pv := range pvs {
+				if pv.V == nil || pv.Outside {
+					return false
+				}
+				o := x.Origin(pv.V)
+				switch t := o.(type) {
+				case *ssa.TypeAssert:
+					if !idxOK(t.X, t, d+1, sawType) {
+						return false
+					}
+				case *ssa.Field:
+					if !idxOK(t.X, t, d+1, sawType) {
+						return false
+					}
+				case *ssa.UnOp:
+					fa, isFa := t.X.(*ssa.FieldAddr)
+					if t.Op != token.MUL || !isFa {
+						return false
+					}
+					al, isAl := x.ResolveAddr(fa.X).(*ssa.Alloc)
+					if !isAl || len(x.stores[al]) == 0 {
+						return false
+					}
+					for _, st := range x.stores[al] {
+						if !idxOK(st.Val, st, d+1, sawType) {
+							return false
+						}
+					}
+				case *ssa.Extract:
+					switch tup := t.Tuple.(type) {
+					case *ssa.Call:
+						cal := tup.Call.StaticCallee()
+						switch {
+						case tup.Call.IsInvoke() && tup.Call.Method.Name() == "FieldByName" && isReflectType(tup.Call.Value.Type()):
+							if !typeOfRoot(tup.Call.Value, tup, 0) || !isName(tup.Call.Args[0], tup) {
+								why = "Type.FieldByName on another type or another name"
+								return false
+							}
+							*sawType = true
+						case cal != nil && cal.Pkg != nil && cal.Pkg.Pkg.Path() == "sync" && (cal.Name() == "Load" || cal.Name() == "LoadOrStore"):
+							if !keyOK(tup.Call.Args[1], tup, sawType) {
+								return false
+							}
+						default:
+							return false
+						}
+					case *ssa.Lookup:
+						if !keyOK(tup.Index, tup, sawType) {
+							return false
+						}
+						if _, isGlobal := x.Origin(tup.X).(*ssa.UnOp); !isGlobal {
+							if !idxOK(tup.X, tup, d+1, sawType) {
+								return false
+							}
+						}
+					default:
+						return false
+					}
+				case *ssa.Lookup:
+					if !keyOK(t.Index, t, sawType) {
+						return false
+					}
+					if _, isGlobal := x.Origin(t.X).(*ssa.UnOp); !isGlobal {
+						if !idxOK(t.X, t, d+1, sawType) {
+							return false
+						}
+					}
+				default:
+					return false
+				}
+			}
+			return true
+		}
+		// fieldOK: v is the field of the given name of the given object
+		fieldOK := func(v ssa.Value, at ssa.Instruction) (bool, int) {
+			n := 0
+			for _, pv := range x.ValuesAt(v, at) {
+				if pv.V == nil {
+					continue // the zero Value: no such field
+				}
+				o := x.Origin(pv.V)
+				if ld, isLd := o.(*ssa.UnOp); isLd && ld.Op == token.MUL {
+					if al, isAl := ld.X.(*ssa.Alloc); isAl && len(x.stores[al]) == 0 {
+						continue // reflect.Value{}: no such field
+					}
+				}
+				call, isCall := o.(*ssa.Call)
+				if !isCall {
+					why = orStr(why, x.Describe(o))
+					return false, n
+				}
+				if fnIs(call.Call.StaticCallee(), "reflect", "", "ValueOf") {
+					if cc, isC := x.Unwrap(call.Call.Args[0]).(*ssa.Const); isC && cc.Value == nil {
+						continue
+					}
+				}
+				nm, cc := reflectMethod(call)
+				switch {
+				case cc != nil && nm == "FieldByName":
+					if !rootOK(cc.Args[0], call, 0) || !isName(cc.Args[1], call) {
+						why = orStr(why, "FieldByName on another object or with another name")
+						return false, n
+					}
+				case cc != nil && nm == "FieldByIndex":
+					saw := false
+					if !rootOK(cc.Args[0], call, 0) || !idxOK(cc.Args[1], call, 0, &saw) || !saw {
+						why = orStr(why, "FieldByIndex with an index path that was not found for this name on this object's own reflect.Type")
+						return false, n
+					}
+				default:
+					why = orStr(why, x.Describe(o))
+					return false, n
+				}
+				n++
+			}
+			return true, n
+		}
+		total, bad, badPos := 0, false, f.Pos()
+		eachInstr(f, func(in ssa.Instruction) {
+			if bad {
+				return
+			}
+			switch fname {
+			case "GetStructAttributeValue":
+				r, isRet := in.(*ssa.Return)
+				if !isRet || len(r.Results) != 2 {
+					return
+				}
+				errNil := false
+				for _, ev := range x.PossibleValues(r.Results[1]) {
+					if ev.V == nil || isConstNil(ev.V) {
+						errNil = true
+					}
+				}
+				if !errNil {
+					return
+				}
+				ok, n := fieldOK(r.Results[0], r)
+				total += n
+				if !ok {
+					bad, badPos = true, r.Pos()
+				}
+			case "SetAttributeValue":
+				nm, cc := reflectMethod(in)
+				if cc == nil || !setters[nm] {
+					return
+				}
+				ok, n := fieldOK(cc.Args[0], in)
+				total += n
+				if !ok || n == 0 {
+					bad, badPos = true, in.Pos()
+					why = orStr(why, "the setter's target is not a field found by name")
+				}
+			}
+		})
+		c.Check(rule, fname+"#field-of-that-name", !bad && total > 0, badPos, "the field accessed must be the one of the given name on the given object, found by name on every call (%d accesses by name recognised): %s", total, orStr(why, "ok"))
+	}
+	c.Min(rule, 2)
+}
+
+// callersOf: the (root) functions that call the named function, sorted.
+func (c *Ctx) callersOf(pkg, recv, name string) []string {
+	var out []string
+	set := map[string]bool{}
+	for _, f := range c.AllFns {
+		eachInstr(f, func(in ssa.Instruction) {
+			if cc := callCommon(in); cc != nil && fnIs(cc.StaticCallee(), pkg, recv, name) {
+				set[fnName(rootOf(f))] = true
+			}
+		})
+	}
+	for k := range set {
+		out = append(out, k)
+	}
+	sort.Strings(out)
+	return out
 }
